@@ -39,6 +39,17 @@ EDGE_ARRAYS = ("edges", "centers", "boundary_edge_indices", "directions", "edge_
 
 def gen(seed, idx, tier):
     rnd = substream(seed, idx, "c14")
+    if rnd.random() < 0.012:
+        # a device with a large mesh (12k-25k sites): offsets and indices beyond 16 bits
+        lu = rnd.choice(scen.UNIT_LEN)
+        dev = {
+            "name": "big", "length_units": lu, "layer": scen.gen_layer(rnd, lu),
+            "film": {"kind": "box", "w": scen.r3(rnd.choice([36.0, 40.0]) + rnd.uniform(0.1, 0.4)), "h": scen.r3(rnd.choice([26.0, 30.0]) + rnd.uniform(0.1, 0.4)), "npts": 200},
+            "holes": [{"kind": "ellipse", "a": 3.0, "b": 2.0, "npts": 20, "c": [2.0, 1.0], "name": "hole0"}] if rnd.random() < 0.5 else [],
+            "terminals": [], "probes": [[5.0, 5.0], [-5.0, 5.0]] if rnd.random() < 0.5 else None,
+            "mesh": {"max_edge_length": rnd.choice([0.45, 0.5, 0.55]), "smooth": 0},
+        }
+        return {"mesh_only": True, "device": dev, "options": {}, "drive": {"field": {"kind": "zero"}}, "faults": [], "storage_ops": ["device-h5", "mesh-h5", "mesh-h5-compressed", "pickle-device", "device-h5-nomesh"]}
     scn = scen.gen_physics(rnd, steps=(2, 10), dt_choices=[1e-3, 0.01, 0.05], screening=rnd.random() < 0.08, refuse=0.0)
     T = scn["options"]["solve_time"]
     if rnd.random() < 0.5:
@@ -237,7 +248,56 @@ def cmp_solution(orig_eval, orig, re, frames, T):
     return out
 
 
+def run_mesh_only(scn):
+    import shutil
+    import tempfile
+
+    import h5py
+    import tdgl
+    from tdgl.finite_volume.mesh import Mesh
+
+    from ..common import digest_arrays, digest_obj
+
+    dev = B.build_device(scn["device"])
+    B._DEVICE_CACHE.pop(digest_obj(scn["device"]), None)  # do not keep 20k-site meshes in the worker
+    work = tempfile.mkdtemp(prefix="tdglsim-c14-")
+    V = []
+    done = 0
+    try:
+        for j, op in enumerate(scn["storage_ops"]):
+            diffs = []
+            if op in ("device-h5", "device-h5-nomesh"):
+                p2 = os.path.join(work, f"dev{j}.h5")
+                dev.to_hdf5(p2, save_mesh=(op == "device-h5"))
+                d2 = tdgl.Device.from_hdf5(p2)
+                diffs = cmp_device(dev, d2, with_mesh=(op == "device-h5"))
+            elif op in ("mesh-h5", "mesh-h5-compressed"):
+                p2 = os.path.join(work, f"mesh{j}.h5")
+                with h5py.File(p2, "w") as f:
+                    dev.mesh.to_hdf5(f.create_group("m"), compress=(op != "mesh-h5"))
+                with h5py.File(p2, "r") as f:
+                    m2 = Mesh.from_hdf5(f["m"])
+                diffs = cmp_mesh(dev.mesh, m2, exact=(op == "mesh-h5"))
+            elif op == "pickle-device":
+                diffs = cmp_device(dev, pickle.loads(pickle.dumps(dev)))
+            done += 1
+            if diffs:
+                V.append(Violation("roundtrip-" + op, f"{op} ({len(dev.mesh.sites)} sites): " + "; ".join(diffs[:3]), op=op, first=diffs[0].split(":")[0], sites=len(dev.mesh.sites)))
+    finally:
+        shutil.rmtree(work, ignore_errors=True)
+    n = len(dev.mesh.sites)
+    return {
+        "digest": digest_obj(scn), "outcome": "mesh-only", "exc": None, "violations": [dict(v) for v in V], "nontrivial": done >= 3,
+        "sig": ("mesh-only", n > 11000, bool(scn["device"]["holes"]), scn["device"]["probes"] is not None),
+        "fingerprint": digest_arrays(dev.mesh.sites, dev.mesh.elements, dev.mesh.areas),
+        "stats": {"steps": 0, "sim_time": 0.0, "probes": {"large_mesh": 1}, "faults": [], "attempts": 0, "screen_iters": 0, "sites": n, "storage_ops": done},
+        "discard": None,
+    }
+
+
 def run(scn):
+    if scn.get("mesh_only"):
+        return run_mesh_only(scn)
     import cloudpickle
     import h5py
     import tdgl
@@ -358,6 +418,12 @@ def run(scn):
 
 
 def shrink(scn):
+    if scn.get("mesh_only"):
+        ops = scn["storage_ops"]
+        if len(ops) > 1:
+            for o2 in base.drop_each(ops):
+                yield base.with_path(scn, ["storage_ops"], o2)
+        return
     ops = scn["storage_ops"]
     if len(ops) > 1:
         for o2 in base.drop_each(ops):
